@@ -310,6 +310,57 @@ def check_equities(seed, count):
     return dict(count=len(lines), diffs=diffs, viols=viols, dist=dist)
 
 
+
+# ---------------------------------------------------------------- partially specified deals with a decided outcome
+def locked_spot(rng):
+    """(hole_ranges, board, winner index): three of a rank on a board on which no flush (hence no straight
+    flush) is possible; one player's range is "the fourth card of that rank plus a side card" written as a
+    two-rank range, most of whose combinations collide with the board; everybody else is unknown.  Whatever is
+    sampled, that player has four of a kind and nobody can beat or tie it."""
+    from pokerkit import Card
+    from pokerkit.analysis import parse_range
+    ranks = '23456789TJQKA'
+    suits = 'cdhs'
+    x = rng.choice(ranks)
+    others = [r for r in ranks if r != x]
+    y, z, k = rng.sample(others, 3)
+    ss = rng.sample(suits, 4)
+    board = [x + ss[0], x + ss[1], x + ss[2], y + ss[0], z + ss[1]]      # at most two cards of a suit
+    rng.shuffle(board)
+    text = (x + k) if ranks.index(x) > ranks.index(k) else (k + x)
+    hero = sorted(parse_range(text), key=lambda h: ''.join(sorted(map(repr, h))))
+    if rng.random() < 0.5:
+        hero = list(reversed(hero))
+    n = rng.choice([2, 2, 3])
+    pos = rng.randrange(n)
+    hole_ranges = [[()] for _ in range(n)]
+    hole_ranges[pos] = hero
+    return hole_ranges, list(Card.parse(''.join(board))), pos, text
+
+
+def check_locked(seed, count):
+    """a range most of whose combinations are impossible, in a partially specified deal whose outcome does
+    not depend on the cards still to come: the equities must be exactly 0 and 1"""
+    from pokerkit import Deck, StandardHighHand
+    from pokerkit.analysis import calculate_equities
+    rng = random.Random(seed)
+    viols = []
+    done = 0
+    for _ in range(count):
+        hole_ranges, board, pos, text = locked_spot(rng)
+        inp = ['locked', text, ''.join(map(repr, board)), len(hole_ranges), pos]
+        try:
+            e = calculate_equities(hole_ranges, board, 2, 5, Deck.STANDARD, (StandardHighHand,), sample_count=rng.choice([50, 200]))
+        except Exception as ex:  # noqa: BLE001
+            viols.append(v('equity', f'locked_raises:{type(ex).__name__}', f'range {text} on {inp[2]}: {type(ex).__name__}: {ex}', inp))
+            continue
+        done += 1
+        want = [1.0 if i == pos else 0.0 for i in range(len(hole_ranges))]
+        if list(e) != want:
+            viols.append(v('equity', 'locked_spot', f'range {text} (seat {pos} of {len(hole_ranges)}) on board {inp[2]}: every '
+                           f'possible deal gives that seat four of a kind and the whole pot, calculate_equities says {e}', inp))
+    return dict(count=done, diffs=[], viols=viols, dist={})
+
 # ---------------------------------------------------------------- ICM
 def check_icm(seed, count):
     from pokerkit.analysis import calculate_icm
@@ -372,6 +423,18 @@ def replay(inp):
     if kind == 'range':
         r = check_one_range(inp[1], inp[2])
         return r
+    if kind == 'locked':
+        from pokerkit import Card, Deck, StandardHighHand
+        from pokerkit.analysis import calculate_equities, parse_range
+        _, text, board, n, pos = inp
+        hero = sorted(parse_range(text), key=lambda h: ''.join(sorted(map(repr, h))))
+        for rng_hero in (hero, list(reversed(hero))):
+            hr = [[()] for _ in range(n)]
+            hr[pos] = rng_hero
+            e = calculate_equities(hr, list(Card.parse(board)), 2, 5, Deck.STANDARD, (StandardHighHand,), sample_count=200)
+            if list(e) != [1.0 if i == pos else 0.0 for i in range(n)]:
+                return f'range {text} (seat {pos} of {n}) on board {board}: calculate_equities says {e}, every possible deal gives that seat the whole pot'
+        return None
     return None
 
 
